@@ -625,19 +625,73 @@ def worker(rec, shard, nshards, scratch, jobs, seed):
     shutil.rmtree(my, ignore_errors=True)
 
 
+def file_roundtrip_non_ascii():
+    """Run in a child interpreter (see locale_check): 8.3.0 with non-ASCII descriptions saved to files in every format and
+    loaded back; returns {format: 'equal' | what went wrong}."""
+    import shutil
+    import tempfile
+    from hed.schema import load_schema, from_string
+    base = ET.parse(os.path.join(core.SCHEMA_DATA, "HED8.3.0.xml")).getroot()
+    lib = None
+    first = next(n for n, d in all_nodes(base) if n.findtext("name") != "#")
+    add_node(first, "Zq-locale", "Non-ASCII: caf\u00e9 \u00e5ngstr\u00f6m \u4e2d \u00df", {}, lib)
+    schema = from_string(ET.tostring(base, encoding="unicode"), ".xml")
+    folder = tempfile.mkdtemp(dir="/dev/shm", prefix="verif-c05-locale-")
+    out = {"preferred_encoding": __import__("locale").getpreferredencoding(False)}
+    try:
+        for fmt, save, path in (("xml", schema.save_as_xml, os.path.join(folder, "s.xml")),
+                                ("mediawiki", schema.save_as_mediawiki, os.path.join(folder, "s.mediawiki")),
+                                ("tsv", schema.save_as_dataframes, os.path.join(folder, "tsvdir"))):
+            try:
+                save(path)
+                back = load_schema(path)
+                out[fmt] = "equal" if back == schema else "reloaded schema differs"
+            except Exception as e:
+                out[fmt] = f"{type(e).__name__}: {str(e)[:120]}"
+    finally:
+        shutil.rmtree(folder, ignore_errors=True)
+    return out
+
+
+def locale_check(ctx):
+    """The files a save writes do not depend on the locale of the process: the same save / reload in child interpreters whose
+    default text encoding is ASCII (LC_ALL=C, UTF-8 mode off) and UTF-8."""
+    rec = ctx.rec
+    for label, env in (("C-locale", {"LC_ALL": "C", "LANG": "C", "PYTHONUTF8": "0", "PYTHONCOERCECLOCALE": "0"}),
+                       ("utf8-mode", {"PYTHONUTF8": "1"})):
+        rec.n("evaluations", 3)
+        rec.n("distinct_nontrivial", 3)
+        try:
+            res = core.hash_sweep("props.c05", "file_roundtrip_non_ascii", [0], extra_env=env)[0]
+        except Exception as e:
+            rec.violation("C05:locale:child-failed", environment=label, error=repr(e)[:300])
+            continue
+        rec.notes.setdefault("locale_check", {})[label] = res.get("preferred_encoding")
+        for fmt in ("xml", "mediawiki", "tsv"):
+            if res.get(fmt) != "equal":
+                rec.violation(f"C05:locale:file-round-trip-depends-on-the-locale:{fmt}", environment=label, result=res.get(fmt),
+                              preferred_encoding=res.get("preferred_encoding"))
+        rec.outcome("locale:" + label)
+
+
 def refuses_to_save(ctx):
     from hed.schema import load_schema_version
     from hed.errors.exceptions import HedFileError
     rec = ctx.rec
     d = ctx.subdir("c05m")
-    for spec in ("testlib_2.0.0,score_1.1.0", ["testlib_2.0.0", "score_1.1.0"]):
+    # (two versions of one library merged into one schema are also "several libraries": library = "testlib,testlib")
+    for spec in ("testlib_2.0.0,score_1.1.0", ["testlib_2.0.0", "score_1.1.0"], "testlib_2.0.0,testlib_3.0.0",
+                 "testlib_3.0.0,testlib_2.0.0", "lb:score_1.1.0,testlib_2.0.0"):
         s = load_schema_version(spec)
         for name, fn in (("get_as_xml_string", lambda: s.get_as_xml_string()),
                          ("get_as_mediawiki_string", lambda: s.get_as_mediawiki_string()),
                          ("get_as_dataframes", lambda: s.get_as_dataframes()),
                          ("save_as_xml", lambda: s.save_as_xml(os.path.join(d, "m.xml"))),
                          ("save_as_mediawiki", lambda: s.save_as_mediawiki(os.path.join(d, "m.mediawiki"))),
-                         ("save_as_dataframes", lambda: s.save_as_dataframes(os.path.join(d, "m_tsv")))):
+                         ("save_as_dataframes", lambda: s.save_as_dataframes(os.path.join(d, "m_tsv"))),
+                         ("get_as_xml_string:unmerged", lambda: s.get_as_xml_string(save_merged=False)),
+                         ("get_as_mediawiki_string:unmerged", lambda: s.get_as_mediawiki_string(save_merged=False)),
+                         ("get_as_dataframes:unmerged", lambda: s.get_as_dataframes(save_merged=False))):
             rec.n("evaluations")
             try:
                 fn()
@@ -692,6 +746,7 @@ def run(ctx):
                                "history_depth_on_pruned_bases": 3 if ctx.thorough else 2}
     ctx.parallel(worker, scratch, jobs, ctx.seed)
     refuses_to_save(ctx)
+    locale_check(ctx)
     ctx.rec.counts["states"] = len(ctx.rec.states)
 
 
